@@ -30,7 +30,14 @@ const (
 	evUnlock // has released the write lock arg
 	evRUnlock
 	evDone
+	evTryLock  // tries the write lock arg (never blocks)
+	evTryRLock // tries the read lock arg
 )
+
+// SchedHeldPoints adds a scheduling point right after every lock acquisition, so that other threads
+// run while a lock is held (needed to explore TryLock failing; off by default because it multiplies
+// the schedules of code that only uses Lock/Unlock without adding behaviours).
+var SchedHeldPoints bool
 
 type schedEvent struct {
 	tid, kind int
@@ -58,11 +65,12 @@ func maskedSend(ch chan schedEvent, e schedEvent) {
 	raceEnable()
 }
 
-func (t *schedThread) yield(kind int, arg uintptr) {
+func (t *schedThread) yield(kind int, arg uintptr) int {
 	raceDisable()
 	t.s.events <- schedEvent{t.id, kind, arg}
-	<-t.resume
+	v := <-t.resume
 	raceEnable()
+	return v
 }
 
 // SchedLock is called by vsync before acquiring a lock; it returns false when no controlled
@@ -80,6 +88,29 @@ func SchedLock(id uintptr, read bool) bool {
 		t.yield(evLock, id)
 	}
 	return true
+}
+
+// SchedTryLock is called by vsync for TryLock/TryRLock: controlled reports whether a controlled
+// execution is active; ok is the scheduler's verdict (the lock was free at the chosen instant).
+func SchedTryLock(id uintptr, read bool) (controlled, ok bool) {
+	raceDisable()
+	t := curThread.Load()
+	raceEnable()
+	if t == nil {
+		return false, false
+	}
+	k := evTryLock
+	if read {
+		k = evTryRLock
+	}
+	return true, t.yield(k, id) == 1
+}
+
+// SchedHeld is called by vsync right after a lock was acquired.
+func SchedHeld() {
+	if SchedHeldPoints {
+		SchedPoint()
+	}
 }
 
 // SchedUnlock is called by vsync after releasing a lock.
@@ -247,18 +278,29 @@ func runOnce(nthreads int, body func(tid int) []ThreadOp, prefix []int) (x *Exec
 		running = t
 		step++
 		e := pending[t]
+		answer := 0
 		switch e.kind {
 		case evLock:
 			getLock(e.arg).writer = t
 		case evRLock:
 			getLock(e.arg).readers[t]++
+		case evTryLock:
+			if l := getLock(e.arg); l.writer == -1 && len(l.readers) == 0 {
+				l.writer = t
+				answer = 1
+			}
+		case evTryRLock:
+			if l := getLock(e.arg); l.writer == -1 {
+				l.readers[t]++
+				answer = 1
+			}
 		case evOpCall:
 			inv[t][int(e.arg)] = step
 		}
 		// hand the baton to t and wait for its next announcement
 		raceDisable()
 		curThread.Store(s.threads[t])
-		s.threads[t].resume <- 0
+		s.threads[t].resume <- answer
 		ne := <-s.events
 		curThread.Store(nil)
 		raceEnable()
